@@ -198,8 +198,57 @@ def jit_path(case):
   return {'evals': evals, 'nontrivial': True, 'outcome': [fam, len(specs)]}
 
 
-SUBS = {'grid': grid, 'identities': identities, 'jit_path': jit_path}
-TIMEOUTS = {'grid': 600, 'identities': 300, 'jit_path': 900}
+def replaced(case):
+  """metric.replace(field=value) on an object that has ALREADY been used must behave like a freshly built metric."""
+  import jax.numpy as jnp
+  from fedjax.core import metrics
+  spec, field, value = case['spec'], case['field'], case['value']
+  fam, c, l = case['family'], case['C'], case.get('L')
+  if fam == 'cls':
+    rows = [(t, s) for s in cls_scores(c, with_inf=False)[:10] for t in range(c)]
+  else:
+    mats = [np.array(m, np.float64).reshape(l, c).tolist() for m in itertools.product((-1.0, 0.0, 1.0), repeat=l * c)][::11]
+    rows = [(list(t), m) for m in mats for t in itertools.product(range(c), repeat=l)]
+  if spec['name'] == 'ConfusionMatrix':
+    # the new object has another number of classes: use rows of that width
+    c2 = value
+    rows2 = [(t, s) for s in cls_scores(c2, with_inf=False)[:10] for t in range(c2)]
+  else:
+    rows2 = rows
+  m1 = mr.build(spec)
+  ys, preds = np.asarray([r[0] for r in rows], np.int32), np.asarray([r[1] for r in rows], np.float32)
+  _ = metrics.evaluate_batch(m1, {'y': jnp.asarray(ys)}, jnp.asarray(preds))       # use it (jitted path)
+  _ = m1.zero()
+  _ = _eval_one(m1, rows[0][0], rows[0][1])                                           # and the plain path
+  v = tuple(value) if isinstance(value, list) and field != 'logits_mask' else value
+  if field == 'logits_mask' and value is not None:
+    v = tuple(float('-inf') if x == '-inf' else float(x) for x in value)
+  m2 = m1.replace(**{field: v})
+  spec2 = dict(spec, **{field: value})
+  ys2, preds2 = np.asarray([r[0] for r in rows2], np.int32), np.asarray([r[1] for r in rows2], np.float32)
+  st = mr.stat_arrays(metrics.evaluate_batch(m2, {'y': jnp.asarray(ys2)}, jnp.asarray(preds2)))
+  want = None
+  for r in rows2:
+    one = mr.ref_stat(spec2, {'y': np.asarray(r[0])}, r[1])
+    want = one if want is None else mr.ref_merge(want, one)
+  for nm, g, w in zip(('accum', 'weight'), st[1:], want[1:]):
+    g, w = np.asarray(g, np.float64), np.asarray(w, np.float64)
+    require(g.shape == w.shape and bool(np.all(np.abs(g - w) <= 1e-4 * (1 + np.abs(w)))), 'metric.replace(%s=%r) on a used '
+            'object: evaluate_batch %s differs from a freshly built metric' % (field, value, nm), w.tolist(), g.tolist())
+  z = mr.stat_arrays(m2.zero())
+  zw = mr.ref_zero(spec2, {'y': np.asarray(rows2[0][0])}, rows2[0][1])
+  for g, w in zip(z[1:], zw[1:]):
+    if np.asarray(w).ndim and np.asarray(g).ndim:  # a scalar zero broadcasts (per-position metrics): fine
+      require(np.asarray(g).shape == np.asarray(w).shape, 'metric.replace(%s=%r): zero() has a stale shape' % (field, value),
+              list(np.asarray(w).shape), list(np.asarray(g).shape))
+  g1 = _eval_one(m2, rows2[-1][0], rows2[-1][1])
+  _cmp(spec2, g1, mr.ref_stat(spec2, {'y': np.asarray(rows2[-1][0])}, rows2[-1][1]), rows2[-1][0], rows2[-1][1], None,
+       'replaced metric, plain call')
+  return {'evals': 3, 'nontrivial': True, 'outcome': [spec['name'], field]}
+
+
+SUBS = {'grid': grid, 'identities': identities, 'jit_path': jit_path, 'replaced': replaced}
+TIMEOUTS = {'grid': 600, 'identities': 300, 'jit_path': 900, 'replaced': 600}
 
 
 def decode_case(case):
@@ -259,10 +308,10 @@ def plan(ctx):
   ctx.assumptions += ['float32 vs float64 reference compared at 1e-5', 'CrossEntropyLoss is not driven with +-inf '
                       'scores (0 * -inf is outside its documented domain); 1e30 magnitudes are included']
   cases = []
-  for c in (2, 3):
+  for c in ((2, 3, 4) if th else (2, 3)):
     for spec in specs_cls(c, th):
       cases.append({'spec': spec, 'family': 'cls', 'C': c})
-  shapes = [(1, 2), (1, 3), (2, 2), (2, 3), (3, 2)] if th else [(1, 3), (2, 2), (3, 2)]
+  shapes = [(1, 2), (1, 3), (2, 2), (2, 3), (3, 2), (4, 2), (2, 4)] if th else [(1, 3), (2, 2), (3, 2)]
   for l, c in shapes:
     for spec in specs_seq(c, th):
       base = spec['base']['name'] if spec['name'] == 'PerDomainMetric' else spec['name']
@@ -294,4 +343,20 @@ def plan(ctx):
       continue  # needs a domain feature: covered by the grid sub-space
     jc.append({'family': fam, 'C': c, 'L': l, 'specs': specs})
   ctx.pmap('jit_path', jc, chunk=1)
+  rp = [
+      ('cls', 3, None, {'name': 'ConfusionMatrix', 'num_classes': 3}, 'num_classes', 5),
+      ('cls', 3, None, {'name': 'ConfusionMatrix', 'num_classes': 3}, 'num_classes', 2),
+      ('cls', 3, None, {'name': 'TopKAccuracy', 'k': 1}, 'k', 2),
+      ('seq', 3, 2, {'name': 'SequenceTokenTopKAccuracy', 'k': 2}, 'k', 1),
+      ('seq', 3, 2, {'name': 'SequenceTokenAccuracy'}, 'masked_target_values', [0, 2]),
+      ('seq', 3, 2, {'name': 'SequenceTokenAccuracy'}, 'logits_mask', [0.0, '-inf', 0.0]),
+      ('seq', 3, 2, {'name': 'SequenceTokenAccuracy'}, 'per_position', True),
+      ('seq', 3, 2, {'name': 'SequenceTokenOOVRate', 'oov_target_values': [1]}, 'oov_target_values', [2]),
+      ('seq', 3, 2, {'name': 'SequenceTokenOOVRate', 'oov_target_values': [1]}, 'masked_target_values', [0, 1]),
+      ('seq', 3, 2, {'name': 'SequenceTruncationRate', 'eos_target_value': 1}, 'eos_target_value', 2),
+      ('seq', 3, 2, {'name': 'SequenceTokenCrossEntropyLoss'}, 'per_position', True),
+      ('seq', 3, 2, {'name': 'SequenceLength'}, 'masked_target_values', [2]),
+  ]
+  ctx.pmap('replaced', [{'family': f, 'C': c, 'L': l, 'spec': sp, 'field': fld, 'value': val} for f, c, l, sp, fld, val in rp],
+           chunk=1)
   ctx.extra['bounds'] = {'classes': [2, 3], 'seq_shapes_LxC': shapes, 'metric_objects': len(cases)}
